@@ -18,7 +18,7 @@ from irsx import dag, engine, diff as dd
 from irsx.smat import M, vars_, ZERO, ONE
 from . import groups as G_
 from .common import guarded, Results, prove_pairs
-from .lie import Fn, mat_pairs, vec_pairs, tangent_sampler, subst_fn, series_pairs, signvars
+from .lie import Fn, mat_pairs, vec_pairs, tangent_sampler, subst_fn, series_pairs, signvars, rounding_standin
 from .c02 import pick_path
 
 PROP = "C04"
@@ -116,6 +116,13 @@ def run_group(gname, s, tier="quick", seed=0, canary=False):
             if edge:
                 res.unverified.append("%s::%s: %d measure-zero path(s) with |a_rot|^2 == eps2 exactly" % (ct, nm, len(edge)))
     guarded(res, tag + "::taylor", do_taylor)
+
+    def do_standin():
+        btol = Fraction(1, 10 ** 7) if s == "d" else Fraction(1, 100)
+        for nm, f in fJ.items():
+            rounding_standin(res, "%s::%s" % (tag, nm), f, G, btol, "m", tier, seed, tscales=(1.0, 1e3),
+                             max_rot=None if nm in ("dr_exp", "dl_exp") else 3.0)
+    guarded(res, tag + "::standin", do_standin)
 
     if G.act and G.has_dr_action:
         def do_action():
